@@ -9,7 +9,17 @@ for d in preserving/R*/; do
   id=$(basename $d)
   [ -d $W ] || git -C /repo worktree add -q --detach $W HEAD || exit 2
   git -C $W checkout -q --detach $(git -C /repo rev-parse HEAD) && git -C $W checkout -q -- . && git -C $W clean -fdq -e target
-  git -C $W apply "$PWD/$d/patch.diff" 2>/dev/null || git -C $W apply --3way "$PWD/$d/patch.diff" >/dev/null 2>&1 || { echo "patch of $id does not apply"; bad=1; continue; }
+  unset VERIF_NO_SID
+  if ! git -C $W apply "$PWD/$d/patch.diff" 2>/dev/null; then
+    git -C $W checkout -q -- . ; git -C $W reset -q --hard
+    # a change that rewrites code a later fix: commit touched is applied to the tree it was made for
+    # (file `base`); string request ids, which that tree does not answer (C18-K1), are then left out
+    if [ -f "$d/base" ] && git -C $W checkout -q --detach "$(cat $d/base)" && git -C $W apply "$PWD/$d/patch.diff" 2>/dev/null; then
+      export VERIF_NO_SID=1
+    else
+      echo "patch of $id does not apply"; bad=1; continue
+    fi
+  fi
   rm -f sim/target-scratch/.verif_repo
   out=$(tools/matrix.sh $W | sed "s/^wt-preserving/$id/")
   echo "$out"
